@@ -90,12 +90,22 @@ package eval
 // leaf: a node the search never needs to expand
 //@ spec func leaf(env Env, k types.EntityUID) bool = !present(env, k) || len(parentsOf(env, k).m) == 0
 
+// Termination of the search: every push onto todo marks a stored entity that was not marked
+// before, so the number of stored entities not yet marked bounds the pushes; between pushes the
+// stack shrinks. unseenE(env, k) is that number for a *finite* store (assumed: its three
+// properties are facts about finite sets).
+//@ spec func unseenE(env Env, k map[types.EntityUID]struct{}) int
+//@ spec func subE(a map[types.EntityUID]struct{}, b map[types.EntityUID]struct{}) bool = forall x types.EntityUID :: { has(b, x) } has(a, x) ==> has(b, x)
+//@ axiom unseenE_nonneg: forall env Env, k map[types.EntityUID]struct{} :: { unseenE(env, k) } unseenE(env, k) >= 0
+//@ axiom unseenE_mono: forall env Env, a map[types.EntityUID]struct{}, b map[types.EntityUID]struct{} :: { unseenE(env, a), unseenE(env, b) } subE(a, b) ==> unseenE(env, b) <= unseenE(env, a)
+//@ axiom unseenE_strict: forall env Env, a map[types.EntityUID]struct{}, b map[types.EntityUID]struct{}, x types.EntityUID :: { unseenE(env, a), unseenE(env, b), has(b, x) } (subE(a, b) && present(env, x) && has(b, x) && !has(a, x)) ==> unseenE(env, b) < unseenE(env, a)
 //@ func entityInOne
 //@   props C03
 //@   results r
 //@   ensures sound: r ==> reach(env, entity, parent)
 //@   ensures complete: !r ==> !reach(env, entity, parent)
 //@   loop 1
+//@     decreases tuple(unseenE(env, known.m), len(todo))
 //@     invariant entity != parent && !has(known.m, parent) && !has(known.m, entity)
 //@     invariant forall j int :: (0 <= j && j < len(todo)) ==> has(known.m, todo[j])
 //@     invariant seen(known, entity, candidate)
@@ -106,7 +116,8 @@ package eval
 //@     invariant forall j int :: (0 <= j && j < len(todo)) ==> has(known.m, todo[j])
 //@     invariant forall x types.EntityUID :: has(known.m, x) == (has(old(known).m, x) || ($done[x] && !leaf(env, x) && x != entity))
 //@     invariant len(todo) >= len(old(todo)) && (forall j int :: (0 <= j && j < len(old(todo))) ==> todo[j] == old(todo)[j])
-//@     invariant forall j int :: (len(old(todo)) <= j && j < len(todo)) ==> $done[todo[j]]
+//@     invariant forall j int :: (len(old(todo)) <= j && j < len(todo)) ==> ($done[todo[j]] && !has(old(known).m, todo[j]) && present(env, todo[j]))
+//@     invariant subE(old(known).m, known.m) && (len(todo) == len(old(todo)) ==> subE(known.m, old(known).m))
 //@     invariant forall x types.EntityUID :: { has(known.m, x) } (has(known.m, x) && !has(old(known).m, x)) ==> inTodo(todo, x)
 //@   assert after "known.Add(k)" witness: len(todo) > 0 && todo[len(todo)-1] == k && inTodo(todo, k)
 //@   ghost before "return false" S: forall x types.EntityUID :: S[x] == (seen(known, entity, x) || (x != parent && leaf(env, x)))
@@ -121,6 +132,7 @@ package eval
 //@   ensures sound: r ==> (exists t types.EntityUID :: inTarget(parents, t) && reach(env, entity, t))
 //@   ensures complete: !r ==> (forall t types.EntityUID :: { inTarget(parents, t) } { reach(env, entity, t) } inTarget(parents, t) ==> !reach(env, entity, t))
 //@   loop 1
+//@     decreases tuple(unseenE(env, known.m), len(todo))
 //@     invariant !inTarget(parents, entity) && !has(known.m, entity)
 //@     invariant forall x types.EntityUID :: { has(known.m, x) } has(known.m, x) ==> !inTarget(parents, x)
 //@     invariant forall j int :: (0 <= j && j < len(todo)) ==> has(known.m, todo[j])
@@ -133,7 +145,8 @@ package eval
 //@     invariant forall j int :: (0 <= j && j < len(todo)) ==> has(known.m, todo[j])
 //@     invariant forall x types.EntityUID :: has(known.m, x) == (has(old(known).m, x) || ($done[x] && !leaf(env, x) && x != entity))
 //@     invariant len(todo) >= len(old(todo)) && (forall j int :: (0 <= j && j < len(old(todo))) ==> todo[j] == old(todo)[j])
-//@     invariant forall j int :: (len(old(todo)) <= j && j < len(todo)) ==> $done[todo[j]]
+//@     invariant forall j int :: (len(old(todo)) <= j && j < len(todo)) ==> ($done[todo[j]] && !has(old(known).m, todo[j]) && present(env, todo[j]))
+//@     invariant subE(old(known).m, known.m) && (len(todo) == len(old(todo)) ==> subE(known.m, old(known).m))
 //@     invariant forall x types.EntityUID :: { has(known.m, x) } (has(known.m, x) && !has(old(known).m, x)) ==> inTodo(todo, x)
 //@   assert after "known.Add(k)" witness: len(todo) > 0 && todo[len(todo)-1] == k && inTodo(todo, k)
 //@   ghost before "return false" S: forall x types.EntityUID :: S[x] == (seen(known, entity, x) || (!inTarget(parents, x) && leaf(env, x)))
